@@ -955,8 +955,14 @@ impl<'a> Gen<'a> {
                 let op = *self.rng.pick(&["shl", "shr", "ashr"]);
                 let max = if op == "ashr" { bits as u64 } else { bits as u64 + 2 };
                 let max = max.min((1u64 << bits.min(16)) - 1);
-                let amount = self.rng.range(0, max);
-                ExprSpec::b(op, self.expr(bits, d), ExprSpec::cu(amount, bits))
+                let amount = match self.rng.below(4) {
+                    // any amount: corner constants of the full width (2^64 and beyond for wide
+                    // operands), or whatever an expression evaluates to
+                    0 => self.constant(bits),
+                    1 => self.expr(bits, d),
+                    _ => ExprSpec::cu(self.rng.range(0, max), bits),
+                };
+                ExprSpec::b(op, self.expr(bits, d), amount)
             }
             4 if bits > 1 => {
                 let op = *self.rng.pick(&["divu", "modu", "divs", "mods"]);
